@@ -478,7 +478,16 @@ struct Exec {
       case OPT_U32: { if (x.kind != 1) return false; auto r = x.tok->opt_u32(o.f ? std::optional<uint32_t>(9) : std::nullopt); if (r.has_value() != o.f || (o.f && *r != 10)) fail("O5-value-integrity", "opt_u32 wrong"); break; }
       case RES_UNIT: { auto r = Tok::res_unit(o.f); if (r.is_ok() != o.f || (!o.f && std::move(r).err().value().code != 3)) fail("O5-value-integrity", "res_unit wrong"); if (!o.f) inc("fault_arm_err_fired"); break; }
       case RES_POD: { auto r = Tok::res_pod(o.f); if (r.is_ok() != o.f) fail("O5-value-integrity", "res_pod wrong arm"); else if (o.f) { Pod p = std::move(r).ok().value(); if (p.a != 5 || p.b != 6) fail("O5-value-integrity", "res_pod damaged"); } else inc("fault_arm_err_fired"); break; }
-      case DESCRIBE: { if (x.kind != 1) return false; check_string("describe", x.tok->describe(), "tok#" + std::to_string(x.id)); break; }
+      case DESCRIBE: {
+        if (x.kind != 1) return false;
+        switch (o.n % 4) {
+          case 0: check_string("describe", x.tok->describe(), "tok#" + std::to_string(x.id)); break;
+          case 1: check_string("describe_named", x.tok->describe_named(), "named#" + std::to_string(x.id)); break;
+          case 2: { auto r = x.tok->opt_describe(o.f); if (r.has_value() != o.f) fail("O5-value-integrity", "opt_describe wrong arm"); else if (o.f) check_string("opt_describe", *r, "opt#" + std::to_string(x.id)); else inc("fault_arm_none_fired"); break; }
+          default: { auto r = x.tok->try_describe_named(o.f); if (r.is_ok() != o.f) fail("O5-value-integrity", "try_describe_named wrong arm"); else if (o.f) check_string("try_describe_named", std::move(r).ok().value(), "trynamed#" + std::to_string(x.id)); else inc("fault_arm_err_fired"); break; }
+        }
+        break;
+      }
       case DESCRIBE_N: { if (x.kind != 1) return false; std::string s = x.tok->describe_n(o.n); if (s.size() > 15) inc("fault_sso_to_heap_growth_fired"); check_string("describe_n", s, want_n(o.n)); break; }
       case TRY_DESCRIBE: {
         if (x.kind != 1 || hs[o.d].kind) return false;
